@@ -346,6 +346,8 @@ class Run:
         self.known = [k for k in load_known() if k["property"] == prop and k.get("status") == "known"]
         self.tlc_runs = []
         self.not_decided = []
+        # replay files of earlier runs of this property are stale
+        shutil.rmtree(os.path.join(REPLAYS, prop), ignore_errors=True)
         self.exhaustive = None
 
     def add_tlc(self, name, r, need_actions=()):
